@@ -414,6 +414,11 @@ def x7_shims(text, log):
         return "vx_rows_init(%s, %s)" % (m.group(1), m.group(2)) + _nl(m.group(0))
     text = re.sub(r"\bvec!\[\s*Vec::<ValueRef>::with_capacity\(([a-z_][a-z0-9_]*)\);\s*([a-z_][a-z0-9_]*)\s*\]", rowsinit, text)
 
+    def collectstr(m):
+        log.add("X7:vx_collect_string")
+        return "vx_collect_string(%s)" % m.group(1)
+    text = re.sub(r"\b(chars)\.into_iter\(\)\.collect\(\)", collectstr, text)
+
     def bsearch(m):
         log.add("X7:vx_bsearch_key0")
         return "vx_bsearch_key0(%s, %s)" % (m.group(1), m.group(2))
